@@ -1772,7 +1772,7 @@ static Byte DecodeAdr(tStrComp const* pArg, Word Erl, tAdrResult* pResult) {
                 if (AdrComps[0].Art == None) {
                     pResult->Mode = 0x3b;
                     pResult->Vals[0] |= 0x10;
-                    pResult->Num = ModAIX;
+                    pResult->Num = ModPCIdx;
                     pResult->Cnt = 2;
                 } else {
                     HVal = EvalStrIntExpression(&AdrComps[0].Comp, Int32, &ValOK);
@@ -1796,7 +1796,7 @@ static Byte DecodeAdr(tStrComp const* pArg, Word Erl, tAdrResult* pResult) {
                         pResult->Vals[1] = HVal & 0xffff;
                         pResult->Mode    = 0x3b;
                         pResult->Vals[0] += 0x20;
-                        pResult->Num = ModAIX;
+                        pResult->Num = ModPCIdx;
                         pResult->Cnt = 4;
                         break;
                     case 2:
@@ -1805,7 +1805,7 @@ static Byte DecodeAdr(tStrComp const* pArg, Word Erl, tAdrResult* pResult) {
                         pResult->Vals[2] = HVal & 0xffff;
                         pResult->Mode    = 0x3b;
                         pResult->Vals[0] += 0x30;
-                        pResult->Num = ModAIX;
+                        pResult->Num = ModPCIdx;
                         pResult->Cnt = 6;
                         break;
                     }
